@@ -25,7 +25,7 @@ PROGS = {"C12": ("bb.",), "C11": ("rr.",)}
 
 def compose_part(ctx):
     quick = ctx.tier == "quick"
-    d1, d2 = (10, 7) if quick else (13, 9)
+    d1, d2 = (10, 7) if quick else (13, 8)
     p = subprocess.run([sys.executable, os.path.join(core.VERIF, "extract", "api_order.py")], capture_output=True, text=True)
     if p.returncode != 0:
         ctx.violation("compose:translator", "the call-order translator cannot account for the current source: " + p.stderr.strip()[-400:],
@@ -71,4 +71,4 @@ def compose_part(ctx):
 
 def rule(ctx):
     quick = ctx.tier == "quick"
-    return RULE.format(d1=10 if quick else 13, d2=7 if quick else 9)
+    return RULE.format(d1=10 if quick else 13, d2=7 if quick else 8)
